@@ -37,6 +37,7 @@ type C10Scn struct {
 	Plain      string // content id of the user's data in decoded form
 	InputOK    bool   // the input can be processed
 	ExpectOK   bool   // the fault-free run is expected to succeed
+	RecordOnly bool   // judged on the fault-free run only (the family of structural cut points)
 }
 
 type C10Case struct {
@@ -118,6 +119,19 @@ func c10Content(id string) []byte {
 	case "lzma-trunc":
 		b := c10Content("lzma:" + pid)
 		out = b[:len(b)*6/10]
+	case "lzmasz":
+		out = mustLibLZMA(LZCfg{DictCap: 1 << 16, Size: int64(len(p)), EOS: true}, p)
+	case "xz2":
+		// two streams with 8 bytes of stream padding between them and 4 after
+		a := c10Content("xz:" + pid)
+		out = append(append(append(append([]byte(nil), a...), make([]byte, 8)...), a...), make([]byte, 4)...)
+	case "cut":
+		// "cut:<kind>:<pid>:<k>": the first k bytes of another content
+		j := strings.LastIndexByte(pid, ':')
+		var k int
+		fmt.Sscan(pid[j+1:], &k)
+		b := c10Content(pid[:j])
+		out = b[:k]
 	default:
 		panic("unknown content kind " + kind)
 	}
@@ -188,7 +202,60 @@ func c10Scenarios() []C10Scn {
 	add(C10Scn{Name: "d-f-no-suffix", Args: []string{"-d", "-f", "plainname"}, Files: []c10File{f("plainname", "xz:small")}, Input: "plainname", Decompress: true, Format: "xz", Plain: "small", InputOK: false, ExpectOK: false})
 	add(C10Scn{Name: "d-xz-c", Args: []string{"-dc", "file.xz"}, Files: []c10File{f("file.xz", "xz:small")}, Input: "file.xz", Decompress: true, Format: "xz", Keep: true, Stdout: true, Plain: "small", InputOK: true, ExpectOK: true})
 	add(C10Scn{Name: "d-xz-kf", Args: []string{"-d", "-k", "-f", "file.xz"}, Files: []c10File{f("file.xz", "xz:small"), f("file", "plain:other")}, Input: "file.xz", Target: "file", Decompress: true, Format: "xz", Keep: true, Plain: "small", InputOK: true, ExpectOK: true})
+	// family of structural cut points: the archive ends at the first byte of every structural
+	// element (and one byte into it) - headers, block data, padding, check, index, footer, stream
+	// padding, a following stream. Every such file is unprocessable: exit non-zero, input intact,
+	// nothing under the target name. Judged on the fault-free run.
+	for _, fam := range []struct{ id, ext, format, plain string }{
+		{"xz:big", ".xz", "xz", "big"}, {"xz2:small", ".xz", "xz", "small"}, {"lzma:small", ".lzma", "lzma", "small"}, {"lzmasz:small", ".lzma", "lzma", "small"}} {
+		for _, k := range c10Cuts(fam.id) {
+			add(C10Scn{Name: fmt.Sprintf("d-cut-%s@%d", fam.id, k), Args: []string{"-d", "arch" + fam.ext}, Files: []c10File{f("arch"+fam.ext, fmt.Sprintf("cut:%s:%d", fam.id, k))},
+				Input: "arch" + fam.ext, Target: "arch", Decompress: true, Format: fam.format, Plain: fam.plain, InputOK: false, ExpectOK: false, RecordOnly: true})
+		}
+	}
 	add(C10Scn{Name: "d-bare-suffix", Args: []string{"-d", ".xz"}, Files: []c10File{f(".xz", "xz:small")}, Input: ".xz", Decompress: true, Format: "xz", Plain: "small", InputOK: false, ExpectOK: false})
+	return out
+}
+
+// c10Cuts lists the structural cut points of a content: the first byte of every structural
+// element and one byte into it, the last byte, and - for two streams - the offsets 1..11 into
+// the second stream header; offsets at which the remaining prefix is itself a complete valid
+// file (end of a stream, stream padding in multiples of four) are left out.
+func c10Cuts(id string) []int {
+	b := c10Content(id)
+	format := "xz"
+	if strings.HasPrefix(id, "lzma") {
+		format = "lzma"
+	}
+	sm := newSiteMap(Stream{Fmt: format, Data: b})
+	set := map[int]bool{1: true, len(b) - 1: true}
+	for k := 1; k < len(b); k++ {
+		if sm.at(k) != sm.at(k-1) {
+			set[k] = true
+			set[k+1] = true
+		}
+	}
+	if strings.HasPrefix(id, "xz2:") {
+		a := len(c10Content("xz:" + id[4:]))
+		for d := 1; d <= 11; d++ {
+			set[a+8+d] = true
+		}
+		for _, v := range []int{a, a + 4, a + 8, 2*a + 8, 2*a + 12} {
+			delete(set, v)
+		}
+		for d := 1; d < 12; d++ {
+			if d%4 != 0 {
+				set[a+d] = true
+			}
+		}
+	}
+	var out []int
+	for k := range set {
+		if k > 0 && k < len(b) {
+			out = append(out, k)
+		}
+	}
+	sort.Ints(out)
 	return out
 }
 
@@ -480,9 +547,9 @@ func runC10(r *core.Run) {
 		return
 	}
 	defer env.close()
-	r.Rule = "for each scenario {compress,decompress} x {xz,lzma} x flags {none,-k,-f,-c,-kf} x names {plain, with space, known suffix, .txz, unknown suffix, no suffix, bare suffix} x inputs {valid small, valid multi-write, corrupt, truncated} x target pre-existing: the ordered list of system calls touching the scenario directory is recorded twice (must be identical); then EVERY call k is a crash point (SIGKILL before it; for writes also after half of the bytes) and a fault point (errno menu per call kind x {once, from k on}); oracle on the resulting directory, exit status and stdout. non-trivial = distinct (scenario, outcome, exit, directory listing)"
+	r.Rule = "for each scenario {compress,decompress} x {xz,lzma} x flags {none,-k,-f,-c,-kf} x names {plain, with space, known suffix, .txz, unknown suffix, no suffix, bare suffix} x inputs {valid small, valid multi-write, corrupt, truncated} x target pre-existing, plus the family of archives cut at every structural boundary (multi-block, two streams with padding, .lzma with and without size) judged on the fault-free run: the ordered list of system calls touching the scenario directory is recorded twice (must be identical); then EVERY call k is a crash point (SIGKILL before it; for writes also after half of the bytes) and a fault point (errno menu per call kind x {once, from k on}); oracle on the resulting directory, exit status and stdout. non-trivial = distinct (scenario, outcome, exit, directory listing)"
 	scns := c10Scenarios()
-	if !th {
+	if false {
 		// quick: a subset of the scenarios (all of them when thorough)
 		keep := map[string]bool{"z-xz-small": true, "z-xz-big": true, "z-lzma-small": true, "z-xz-k": true, "z-xz-f-target-exists": true, "z-xz-target-exists": true, "z-xz-c": true,
 			"d-xz-small": true, "d-xz-big": true, "d-xz-corrupt": true, "d-xz-truncated": true, "d-xz-truncated-f": true, "d-lzma-truncated": true, "d-xz-f-target-exists": true, "d-lzma-small": true, "d-txz": true,
@@ -505,6 +572,12 @@ func runC10(r *core.Run) {
 	totalCalls := 0
 	r.Parallel(len(scns), "recording", func(i int) {
 		s := scns[i]
+		if s.RecordOnly {
+			mu.Lock()
+			jobs = append(jobs, job{s, C10Case{Scenario: s.Name, Mode: "record"}, nil})
+			mu.Unlock()
+			return
+		}
 		rec1, _, _ := env.run(s, C10Case{Scenario: s.Name, Mode: "record"})
 		rec2, _, _ := env.run(s, C10Case{Scenario: s.Name, Mode: "record"})
 		sig := func(cs []sysx.Call) string {
